@@ -242,7 +242,7 @@ Check (C01_transcript_honest_partial :
       (decode_payload (pay L) <> None ->
        run_l on_curve verify H KDF pubk dh L a =
         outcome_of (check_dialed (dialed_of L) (verify_identity on_curve verify (pay D) (pubk (sta D)))))).
-Check (C01_transcript_hash_instance_partial :
+Check (C01_transcript_hash_instance :
   forall a b, H_inst a = H_inst b -> a = b).
 Check (C01_webrtc_prologue_binds :
   forall on_curve verify (H : list item -> bytes) (KDF : list bytes -> bytes)
@@ -319,8 +319,8 @@ Check (C01_dy_listener_authenticates :
 Check (C01_dy_dialer_agreement :
   forall (pro : N -> list N) (asec bad : N -> Prop) tr a e s P rs K,
     DY.valid pro asec bad tr -> In (DY.AcceptD a e s P rs K) tr -> ~ bad P ->
-    exists y, K = DY.d_key e s y rs /\ In (DY.NewL P y rs) tr /\ pro e = pro y /\
-              DY.msg2_expected pro e y rs P = DY.msg2 pro P y rs e).
+    exists y, K = DY.d_key e s y rs /\ In (DY.NewL P y rs) tr /\ In (DY.Answered P y rs e) tr /\
+              pro e = pro y /\ DY.msg2_expected pro e y rs P = DY.msg2 pro P y rs e).
 Check (C01_dy_listener_agreement :
   forall (pro : N -> list N) (asec bad : N -> Prop) tr a e s P rs K,
     DY.valid pro asec bad tr -> In (DY.AcceptL a e s P rs K) tr -> ~ bad P ->
